@@ -38,6 +38,13 @@ var vpC02Cases = []vpC02Case{
 	{"Object.NameMap-tag", func(s string) (Item, []string, []string) {
 		return &Object{ID: "https://h.ex/i", Type: NoteType, Name: NaturalLanguageValues{{Ref: LangRef(s), Value: Content("one")}, {Ref: "fr", Value: Content("un")}}}, []string{"nameMap", "\x00tag"}, []string{"id", "type", "nameMap"}
 	}},
+	{"Object.NameMap-tag-after-untagged", func(s string) (Item, []string, []string) {
+		// an entry under the nil tag first: whatever the second tag is, no member name may repeat
+		return &Object{ID: "https://h.ex/i", Type: NoteType, Name: NaturalLanguageValues{{Ref: NilLangRef, Value: Content("zero")}, {Ref: LangRef(s), Value: Content("one")}, {Ref: "fr", Value: Content("un")}}}, []string{"nameMap", "\x00tag"}, []string{"id", "type", "nameMap"}
+	}},
+	{"Object.NameMap-tag-after-empty-tag", func(s string) (Item, []string, []string) {
+		return &Object{ID: "https://h.ex/i", Type: NoteType, Name: NaturalLanguageValues{{Ref: "", Value: Content("zero")}, {Ref: LangRef(s), Value: Content("one")}, {Ref: "fr", Value: Content("un")}}}, []string{"nameMap", "\x00tag"}, []string{"id", "type", "nameMap"}
+	}},
 	{"Object.SourceContentMap-tag", func(s string) (Item, []string, []string) {
 		return &Object{ID: "https://h.ex/i", Type: NoteType, Source: Source{MediaType: "text/x", Content: NaturalLanguageValues{{Ref: "en", Value: Content("one")}, {Ref: LangRef(s), Value: Content("un")}}}}, []string{"source", "contentMap", "\x00tag"}, []string{"id", "type", "source"}
 	}},
